@@ -7,6 +7,7 @@
 //	inject <repo-pkg-dir> <verif-file> [as <name>]   add a file to a repo package (virtual path)
 //	import <glob> <old-import-path>=<new-import-path> ...   rewrite imports in matching non-test files
 //	chan   <glob> [len=<expr>,<expr>...]              rewrite channel operations to vchan (subset; see chan.go)
+//	rangekeys <glob> <map-expr> ...                   `for k := range <map-expr>` iterates in sorted key order (owns Go's random map order)
 //	replace <repo-file> <verif-file>                  replace a file wholesale (used by mutation self-tests only)
 //
 // The repo is never written. Output: <out>/overlay.json plus generated files under <out>/gen.
@@ -38,6 +39,7 @@ type fileState struct {
 	chans   bool
 	lens    map[string]bool
 	hooks   []hookSpec
+	rangeks map[string]bool
 }
 
 func main() {
@@ -96,7 +98,7 @@ func main() {
 					src = filepath.Join(*root, src)
 				}
 				override[filepath.Join(*repo, f[1])] = src
-			case "import", "chan", "hookfn":
+			case "import", "chan", "hookfn", "rangekeys":
 				ms, err := filepath.Glob(filepath.Join(*repo, f[1]))
 				if err != nil || len(ms) == 0 {
 					die("%s:%d: glob %s matches nothing", *spec, ln+1, f[1])
@@ -108,6 +110,15 @@ func main() {
 					st := get(m)
 					if f[0] == "chan" {
 						st.chans = true
+					}
+					if f[0] == "rangekeys" {
+						if st.rangeks == nil {
+							st.rangeks = map[string]bool{}
+						}
+						for _, e := range f[2:] {
+							st.rangeks[e] = true
+						}
+						continue
 					}
 					if f[0] == "hookfn" {
 						st.hooks = append(st.hooks, parseHookArgs(f[2:]))
@@ -152,6 +163,10 @@ func main() {
 				changed = true
 				addImport(f, "github.com/nspcc-dev/neofs-node/verif/shim/vchan")
 			}
+		}
+		if len(st.rangeks) > 0 && rewriteRangeKeys(fset, f, st.rangeks) {
+			changed = true
+			addImport(f, "github.com/nspcc-dev/neofs-node/verif/shim/vorder")
 		}
 		if len(st.hooks) > 0 && applyHooks(f, st.hooks) {
 			changed = true
